@@ -1,8 +1,45 @@
-(* Props/C03.v — property theorems only (grows as the proofs land). *)
+(* Props/C03.v — property theorems only. *)
 From Coq Require Import List NArith ZArith.
-From N0 Require Import Base.PyStr Base.PyVal.
+From N0 Require Import Base.PyStr Base.PyVal Xpath.Dec Xpath.DecProofs Xpath.Token Xpath.TokenProofs
+  Xpath.Find Xpath.FindProofs Xpath.Write Xpath.SpecProofs Xpath.WalkProofs Xpath.CreateProofs.
 Import ListNotations.
 
-Theorem C03_update_read_back : forall (k : pstr) (v : tree) kvs, lookup k (update k v kvs) = Some v.
-Proof. exact (@lookup_update_same tree). Qed.
-Print Assumptions C03_update_read_back.
+(* d["P/n1/.../nk"] = v, where P spells an existing dictionary and n1 is a fresh name in it
+   (n2..nk arbitrary names): exactly the missing chain is created — name steps become
+   nested (n0-) dictionaries holding v at the end — and nothing is raised.
+   (partial: the name[new()], name[0], [new()] and [len] steps of the property's creation
+   grammar are covered by the correspondence check and the reference oracle only; see
+   DESIGN.md 5/C03.) *)
+Theorem C03_creates_names_partial :
+  forall fuel root x v toks p c kvs n1 ns,
+  has_path_char x = true -> tokenize x = toks ++ n1 :: ns ->
+  walk root toks p (Dict c kvs) ->
+  Forall name_tok (n1 :: ns) -> plain_key n1 -> lookup n1 kvs = None ->
+  2 * length toks + 2 + length ns <= fuel ->
+  setitem_core fuel root x v = Ok (replace_at root p (Dict c (update n1 (chain ns v) kvs))).
+Proof. exact setitem_creates_names. Qed.
+Print Assumptions C03_creates_names_partial.
+
+(* afterwards the created path reads back v ... *)
+Theorem C03_created_chain_resolves : forall root p c kvs n1 ns v,
+  resolve root p = Some (Dict c kvs) ->
+  resolve (replace_at root p (Dict c (update n1 (chain ns v) kvs))) (p ++ PKey n1 :: map PKey ns) = Some v.
+Proof. exact created_chain_resolves. Qed.
+Print Assumptions C03_created_chain_resolves.
+
+(* ... and every previously existing node that is not an ancestor of the new chain is unchanged *)
+Theorem C03_existing_nodes_unchanged : forall root p c kvs n1 X q u,
+  resolve root p = Some (Dict c kvs) -> lookup n1 kvs = None ->
+  resolve root q = Some u -> (forall r, p <> q ++ r) ->
+  resolve (replace_at root p (Dict c (update n1 X kvs))) q = Some u.
+Proof. exact creation_preserves. Qed.
+Print Assumptions C03_existing_nodes_unchanged.
+
+Theorem C03_nonvacuous :
+  setitem_core (wfuel cr_x) cr_root cr_x (Leaf (SInt 7)) =
+  Ok (Dict true [([97]%N, Dict true [([107]%N, Leaf (SInt 1)); ([110; 49]%N, Dict true [([110; 50]%N, Leaf (SInt 7))])])]) /\
+  exists toks p c kvs n1 ns,
+    tokenize cr_x = toks ++ n1 :: ns /\ walk cr_root toks p (Dict c kvs) /\ Forall name_tok (n1 :: ns) /\
+    plain_key n1 /\ lookup n1 kvs = None.
+Proof. exact create_example. Qed.
+Print Assumptions C03_nonvacuous.
